@@ -42,6 +42,23 @@ Definition cont_collapse_f (S : sparse V) (dims : list nat) : @kres V :=
   end.
 End CollapseF.
 
+(* ---- sptendiag(elements, shape) (sptensor.py:3833-3845): constructed_shape = (N,)*N without a shape, max(N, dim) per mode otherwise;
+     subs = N rows [k, ..., k]; from_aggregator(subs, elements, constructed_shape).  (N > 0 with an order-0 shape is refused.) ---- *)
+Section Diag.
+Context {V : Type} (v0 : V) (vadd : V -> V -> V) (isz : V -> bool).
+Definition diag_cshape (n : nat) (req : option shape) : shape :=
+  match req with None => repeat n n | Some s => map (Nat.max n) s end.
+Definition impl_sptendiag (els : list V) (req : option shape) : sparse V :=
+  let n := length els in let cs := diag_cshape n req in
+  from_aggregator isz (vsum v0 vadd) cs (map (fun k => repeat k (length cs)) (seq 0 n)) els.
+(* the super-diagonal of the elements, zero elsewhere *)
+Definition gdiag (els : list V) (i : idx) : V :=
+  match i with
+  | [] => v0
+  | k :: r => if forallb (Nat.eqb k) r then nth k els v0 else v0
+  end.
+End Diag.
+
 (* ---- simultaneous walk over two strictly ascending coordinate lists ---- *)
 Section Merge.
 Context {V : Type} (v0 : V) (vadd vmul : V -> V -> V) (isz : V -> bool).
